@@ -1,4 +1,5 @@
 ---- MODULE MC_Batcher ----
 EXTENDS Batcher
 SibLogs == [s \in {"ts", "spl"} |-> IF s = "spl" THEN "ts" ELSE "none"]
+SibNone == [s \in Svcs |-> "none"]
 ====
